@@ -27,10 +27,20 @@ theorem parse_no_panic (offset : Nat) (lines : List (List Char))
     (h : ∀ l ∈ lines, ¬ HasLongDigitRun l) : parseRecord offset lines ≠ .panic :=
   KlogV.parseRecord_no_panic offset lines h
 
-/-- A tag value never contains both kinds of quotes, so `NewTagOrPanic` cannot panic. -/
-theorem tag_never_both_quotes (u : UTab) (s : List Char) (t : Tag) (n : Nat) (h : matchTag u s = some (t, n)) :
+/-- A tag value never contains both kinds of quotes, so `NewTagOrPanic` cannot panic.
+The Unicode table is a parameter of the model; the statement needs that at least one of the two
+quote characters is not classified as a letter (true of Go's `unicode.IsLetter` for both). -/
+theorem tag_never_both_quotes (u : UTab) (s : List Char) (t : Tag) (n : Nat)
+    (hq : u.isLetter '"' = false ∨ u.isLetter '\'' = false) (h : matchTag u s = some (t, n)) :
     ¬ (t.value.contains '"' = true ∧ t.value.contains '\'' = true) :=
-  KlogV.matchTag_not_both_quotes u s t n h
+  KlogV.matchTag_not_both_quotes u s t n hq h
+
+/-- The hypothesis `hq` is needed: with a table that calls both quotes letters, the unquoted
+value alternative `[\p{L}\d_-]*` swallows them. -/
+example : ∃ (u : UTab) (s : List Char) (t : Tag) (n : Nat), matchTag u s = some (t, n) ∧
+    t.value.contains '"' = true ∧ t.value.contains '\'' = true :=
+  ⟨⟨fun c => c == '"' || c == '\'' || c == 'a' || c == 'x', id⟩, "#a=x\"'".toList,
+    ⟨['a'], ['x', '"', '\'']⟩, 6, by decide⟩
 
 /-- Evaluation overflows only beyond the int64 range (finding D12): within range it is exact. -/
 theorem total_no_panic (xs : List Int) (h : ∀ n, inRange ((xs.take n).sum) = true) (hx : ∀ x ∈ xs, inRange x = true) :
